@@ -170,7 +170,7 @@ func ExecExpressionInputText(exprStrMap map[string]string) (r.ElementMap, error)
 // newVarInputVM - expressions need a module scope and a call frame to look names up
 // (an undefined name or 其X must yield an error, not a nil dereference)
 func newVarInputVM() *r.VM {
-	vm := r.InitVM(globalValues)
+	vm := r.InitVM(NewGlobalValues())
 	module := vm.AllocateModule(MODULE_NAME_MAIN, nil)
 	vm.PushCallFrame(r.NewScriptCallFrame(module))
 	return vm
